@@ -561,6 +561,8 @@ def run_driver(text):
 
 
 DIED_ASSERT = "Assertion `norm != WORST_SCORE' failed"
+RERUN_SIGNATURES = [("assert_norm_worst_score_search_died", DIED_ASSERT),
+                    ("ubsan_nan_features_D15", "nan is outside the range of representable values")]
 _ndebug = []
 
 
@@ -597,11 +599,16 @@ def run_case(binp, case, scratch, tag, nfoff):
     hmm = case["config"].get("hmm", str(MODEL / "en-us"))
     rc, out, err = vlib.run_bin(binp, [hmm], stdin_text="\n".join(ops) + "\n", timeout=900)
     died = False
-    if rc != 0 and DIED_ASSERT in err:
-        # The search lost every active HMM (all paths pruned) and the assert-enabled build stops in
-        # ptm_mgau_codebook_norm.  The pinned build is -DNDEBUG and goes on; "no path survives" is
-        # exactly what C01 has to see, so the case is judged on the assert-free flavour (no sanitizers).
-        died = True
+    why = next((name for name, sig in RERUN_SIGNATURES if sig in err), None) if rc != 0 else None
+    if why:
+        # (a) The search lost every active HMM (all paths pruned) and the assert-enabled build stops in
+        #     ptm_mgau_codebook_norm.  The pinned build is -DNDEBUG and goes on; "no path survives" is
+        #     exactly what C01 has to see.
+        # (b) All-zero audio in full-utterance mode puts NaN into the features and UBSan stops at the
+        #     float→int cast in ptm_mgau.c (D15, C18's subject).
+        # Neither is a statement of C01/C03; the case is judged on the plain flavour (-DNDEBUG, no
+        # sanitizers = what the pinned build does) and counted in the evidence.
+        died = why
         rc, out, err = vlib.run_bin(ndebug_harness(), [hmm], stdin_text="\n".join(ops) + "\n", timeout=900)
     ev = parse_harness(out)
     res = {"p1": [], "p3": [], "infos": [], "crash": None, "rc": rc, "utts": 0, "loaded": [], "rejects": 0, "died_assert": died}
@@ -665,8 +672,8 @@ def run_case(binp, case, scratch, tag, nfoff):
 # ---------------------------------------------------------------------------------------------
 # shrinking
 
-def shrink_case(case, fails, budget=14):
-    """greedy: drop units / utterances, single-call plan, shorter audio, default config"""
+def shrink_case(case, fails, budget=24):
+    """greedy, repeated while it helps: one unit / one utterance, single-call plan, default config, shorter audio"""
     best = case
     tests = [0]
 
@@ -678,54 +685,59 @@ def shrink_case(case, fails, budget=14):
             return fails(c)
         except Exception:
             return False
-    # one unit, one utterance
-    for ui, u in enumerate(best["units"]):
-        for ti, t in enumerate(u["utts"]):
-            c = dict(best, units=[dict(u, utts=[t])])
-            if (len(best["units"]) > 1 or len(u["utts"]) > 1) and attempt(c):
-                best = c
-                break
-        else:
-            continue
-        break
-    if len(best["units"]) == 1 and len(best["units"][0]["utts"]) == 1:
-        u = best["units"][0]
-        t = u["utts"][0]
-        n = len(render_audio(t["audio"])) // 2
-        simple = ["start"] + [["proc", min(MAXCALL, n - a), 0, 0, 0] for a in range(0, max(n, 1), MAXCALL)] + ["end", ["dump", "fin"]]
-        c = dict(best, units=[dict(u, utts=[dict(t, plan=simple)])])
-        if t["plan"] != simple and attempt(c):
-            best, t = c, c["units"][0]["utts"][0]
-        for k, v in list(best["config"].items()):
-            if k == "hmm":
-                continue
-            cfg = dict(best["config"])
-            del cfg[k]
-            c = dict(best, config=cfg)
-            if attempt(c):
-                best = c
-        # shorter audio (only with the simple plan)
-        u = best["units"][0]
-        t = u["utts"][0]
-        if t["plan"] == simple:
-            while n > 400:
-                m = n // 2
-                raw = render_audio(t["audio"])[:2 * m]
-                # re-express as an explicit clip of the first piece when possible
-                a0 = t["audio"][0]
-                if len(t["audio"]) == 1 and not a0.get("rev") and a0["src"] != "zero":
-                    na = [dict(a0, b=a0.get("a", 0) + m)]
-                elif len(t["audio"]) == 1 and a0["src"] == "zero":
-                    na = [dict(a0, b=m)]
-                else:
+
+    def simple_plan(n):
+        return ["start"] + [["proc", min(MAXCALL, n - a), 0, 0, 0] for a in range(0, max(n, 1), MAXCALL)] + ["end", ["dump", "fin"]]
+
+    for _round in range(2):
+        before = json.dumps(best, sort_keys=True)
+        # one unit, one utterance
+        if len(best["units"]) > 1 or len(best["units"][0]["utts"]) > 1:
+            done = False
+            for u in best["units"]:
+                for t in u["utts"]:
+                    c = dict(best, units=[dict(u, utts=[t], prestart=False)])
+                    if attempt(c):
+                        best, done = c, True
+                        break
+                if done:
                     break
-                c = dict(best, units=[dict(u, utts=[{"audio": na, "plan": ["start", ["proc", m, 0, 0, 0], "end", ["dump", "fin"]]}])])
+        if len(best["units"]) == 1 and len(best["units"][0]["utts"]) == 1:
+            u = best["units"][0]
+            t = u["utts"][0]
+            n = len(render_audio(t["audio"])) // 2
+            if t["plan"] != simple_plan(n):
+                c = dict(best, units=[dict(u, utts=[dict(t, plan=simple_plan(n))])])
                 if attempt(c):
-                    best, n = c, m
-                    u = best["units"][0]
-                    t = u["utts"][0]
+                    best = c
+            for k in list(best["config"].keys()):
+                if k == "hmm":
+                    continue
+                cfg = dict(best["config"])
+                del cfg[k]
+                c = dict(best, config=cfg)
+                if attempt(c):
+                    best = c
+            # shorter audio (only with the single-call plan and a single piece of audio)
+            u = best["units"][0]
+            t = u["utts"][0]
+            while t["plan"] == simple_plan(n) and n > 400 and len(t["audio"]) == 1:
+                m = n // 2
+                a0 = t["audio"][0]
+                if a0["src"] == "zero":
+                    na = [dict(a0, b=m)]
+                elif not a0.get("rev"):
+                    na = [dict(a0, b=a0.get("a", 0) + m)]
                 else:
                     break
+                c = dict(best, units=[dict(u, utts=[{"audio": na, "plan": simple_plan(m)}])])
+                if not attempt(c):
+                    break
+                best, n = c, m
+                u = best["units"][0]
+                t = u["utts"][0]
+        if json.dumps(best, sort_keys=True) == before:
+            break
     return best
 
 
@@ -819,7 +831,8 @@ def run_check(c, prop):
     agg = {"dumps": 0, "final_dumps": 0, "partial_dumps": 0, "with_hyp": 0, "no_exit_final": 0, "no_exit_partial": 0,
            "exit_but_no_word": 0, "null_segments": 0, "leading_null": 0, "entries_max": 0, "entries_total": 0,
            "utterances": 0, "grammar_loads": 0, "grammar_rejected": 0, "zero_frame_dumps": 0, "frames_1_to_4_dumps": 0,
-           "harness_crashes": 0, "search_died_assert_reruns_on_ndebug_flavour": 0}
+           "harness_crashes": 0, "reruns_on_plain_flavour": 0}
+    reruns = {}
     distinct = set()
     branches = {}
     all_ok = {"corr": True, "wf": True, "oracle": True, "crash": True}
@@ -830,7 +843,9 @@ def run_check(c, prop):
     for tag, cs in cases:
         r = results[tag]
         agg["utterances"] += r["utts"]
-        agg["search_died_assert_reruns_on_ndebug_flavour"] += 1 if r.get("died_assert") else 0
+        if r.get("died_assert"):
+            agg["reruns_on_plain_flavour"] += 1
+            reruns[r["died_assert"]] = reruns.get(r["died_assert"], 0) + 1
         agg["grammar_loads"] += len(r["loaded"])
         agg["grammar_rejected"] += r["rejects"]
         for inf in r["infos"]:
@@ -916,6 +931,7 @@ def run_check(c, prop):
                   "rule": "evaluation = one dump (history table + API results) judged; non-trivial = the result has an exit "
                           "(hypothesis or at least one segment); distinct by (case, dump point, hypothesis)",
                   "cases": len(cases), "corpus_cases": ncorp, "decoder_n_frames_offset_in_source": nfoff, **agg,
+                  "reruns_on_plain_flavour_by_reason (library stopped under asserts/UBSan for a reason owned by C09/C18)": reruns,
                   "findExit_branches_hit (dumps)": branches,
                   "findExit_branches_never_hit": [b for b in ALL_BRANCHES if b not in branches],
                   "acoustic_models": stats.get("model", {}), "audio_kinds": stats["audio"], "grammar_kinds": stats["grammar"], "grammar_features": stats["features"],
